@@ -43,40 +43,38 @@ Theorem C08_mixed_documented :
 Proof. vm_compute. repeat split; reflexivity. Qed.
 Print Assumptions C08_mixed_documented.
 
-(* 2D with 3D, matrices with quaternions or twists, unrelated spatial-vector classes: * / ** @ raise, in both orders.
-   (+ and - do NOT for a pose on the left: C08_op2_fallthrough_refuted.) *)
+(* 2D with 3D, a rotation class with a rigid-motion class, matrices with quaternions or twists, unrelated spatial-vector
+   classes: EVERY arithmetic operator raises, in both orders (before the fixes + and - returned None for a pose on the left,
+   SE3 * SO3 an identity, Twist3 + Plucker a Twist3 holding foreign elements) *)
+Definition all_arith : list op := [Mul; Div; Add; Sub; Pow; MatMul].
 Definition raises_both_orders (ops : list op) (xs ys : list cls) : bool :=
   forallb (fun a => forallb (fun b => forallb (fun o => both_lengths (fun n =>
      outcome_beq (binop H n o (Obj a) (Obj b)) Raise && outcome_beq (binop H n o (Obj b) (Obj a)) Raise)) ops) ys) xs.
 Theorem C08_unrelated_pairs_raise :
-  raises_both_orders [Mul; Div; Pow; MatMul] [SO2; SE2] [SO3; SE3] = true /\
-  raises_both_orders [Mul; Div; Pow; MatMul] [SO2; SE2; SO3; SE3] [Quaternion; UnitQuaternion; SpatialInertia] = true /\
-  raises_both_orders [Mul; Div; Pow; MatMul] [SO2; SE2; SO3] [Plucker; SpatialVelocity; SpatialForce] = true /\
-  raises_both_orders [Div; Pow; MatMul] [SO2; SE2; SO3; SE3] [Twist2; Twist3] = true /\
+  raises_both_orders all_arith [SO2; SE2] [SO3; SE3] = true /\
+  raises_both_orders all_arith [SO2; SO3] [SE2; SE3] = true /\
+  raises_both_orders all_arith [SO2; SE2; SO3; SE3] [Quaternion; UnitQuaternion; SpatialInertia; DualQuaternion; UnitDualQuaternion] = true /\
+  raises_both_orders all_arith [SO2; SE2; SO3] [Plucker; SpatialVelocity; SpatialAcceleration; SpatialForce; SpatialMomentum] = true /\
+  raises_both_orders [Div; Add; Sub; Pow; MatMul] [SO2; SE2; SO3; SE3] [Twist2; Twist3] = true /\
   raises_both_orders [Mul] [SO2; SO3] [Twist2; Twist3] = true /\
-  raises_both_orders [Mul; Div; Sub; Pow] [SpatialVelocity; SpatialAcceleration] [SpatialForce; SpatialMomentum] = true /\
-  raises_both_orders [Add; Sub] [SpatialVelocity] [SpatialAcceleration; SpatialForce; SpatialMomentum] = true.
+  raises_both_orders all_arith [Quaternion; UnitQuaternion] [Twist2; Twist3; Plucker; DualQuaternion] = true /\
+  raises_both_orders all_arith [Twist2] [Twist3; Plucker] = true /\ raises_both_orders all_arith [Twist3] [Plucker] = true /\
+  raises_both_orders [Mul; Div; Add; Sub; Pow] [SpatialVelocity; SpatialAcceleration] [SpatialForce; SpatialMomentum] = true /\
+  raises_both_orders all_arith [SpatialAcceleration] [SpatialVelocity; SpatialForce; SpatialMomentum] = true.
 Proof. vm_compute. repeat split; reflexivity. Qed.
 Print Assumptions C08_unrelated_pairs_raise.
 
-(* == and != between operands of one class: booleans (a list for a multi-valued sequence) without raising.
-   FULL for the pose, quaternion and twist classes (single-valued pose != was repaired by a4db0b4) and for the dual
-   quaternions.  Still _partial as a whole: Plucker only single-valued (C08_plucker_eq_multi_refuted), and the spatial-vector
-   classes and SpatialInertia not at all (C08_userlist_eq_refuted). *)
-Theorem C08_same_class_comparison_partial :
+(* == and != between operands of one class return booleans (a list for a multi-valued sequence) without raising: FULL, for
+   all 16 classes (a4db0b4 repaired single-valued pose !=, fb8fbdb the spatial-vector classes and SpatialInertia, 2ec0dbf
+   multi-valued Plucker).  The dual-quaternion classes are not sequences: one bool whatever their parts hold. *)
+Theorem C08_same_class_comparison :
   forallb (fun X => both_lengths (fun n => forallb (fun o => outcome_beq (binop H n o (Obj X) (Obj X)) (Value (bools n) Computed)) [Eq; Ne]))
-          [SO2; SE2; SO3; SE3; Quaternion; UnitQuaternion; Twist2; Twist3] = true /\
-  forallb (fun o => outcome_beq (binop H 1 o (Obj Plucker) (Obj Plucker)) (Value RBool Computed)) [Eq; Ne] = true /\
+          [SO2; SE2; SO3; SE3; Quaternion; UnitQuaternion; Twist2; Twist3; Plucker;
+           SpatialVelocity; SpatialAcceleration; SpatialForce; SpatialMomentum; SpatialInertia] = true /\
   forallb (fun X => both_lengths (fun n => forallb (fun o => outcome_beq (binop H n o (Obj X) (Obj X)) (Value RBool Computed)) [Eq; Ne]))
           [DualQuaternion; UnitDualQuaternion] = true.
-Proof. vm_compute. repeat split; reflexivity. Qed.
-Print Assumptions C08_same_class_comparison_partial.
-
-(* (was _refuted + _partial before fix a4db0b4)  X != Y for poses: a bool for single-valued operands, a list otherwise *)
-Theorem C08_pose_ne :
-  forallb (fun X => both_lengths (fun n => outcome_beq (binop H n Ne (Obj X) (Obj X)) (Value (bools n) Computed))) [SO2; SE2; SO3; SE3] = true.
-Proof. vm_compute. reflexivity. Qed.
-Print Assumptions C08_pose_ne.
+Proof. vm_compute. split; reflexivity. Qed.
+Print Assumptions C08_same_class_comparison.
 
 (* (was _refuted before fix 56d2f84)  the product of two dual quaternions is a UnitDualQuaternion exactly when both factors are *)
 Theorem C08_dual_quaternion_product_class :
